@@ -200,12 +200,19 @@ def nontrivial(case):
 
 # ----------------------------------------------------------------------------- oracles on one returned trajectory
 
-def check_solution(ctx: Ctx, case, prob, refs, x, u, cost, tag, ubar=None, T=None):
+def check_solution(ctx: Ctx, case, prob, refs, x, u, cost, tag, ubar=None, T=None, Bn=None):
     """the property's own clauses for one returned (x, u, cost); refs[b] is the dense reference of item b.
     Returns True when every clause holds."""
     eps = eps_of(case)
-    Bn, T, ns, nc = case["B"], (case["T"] if T is None else T), case["ns"], case["nc"]
+    Bn, T, ns, nc = (case["B"] if Bn is None else Bn), (case["T"] if T is None else T), case["ns"], case["nc"]
     ok = True
+    if not all(isinstance(t, torch.Tensor) for t in (x, u, cost)):
+        ctx.fail(case, f"shape: {tag}: returned {type(x).__name__}, {type(u).__name__}, {type(cost).__name__} instead of three tensors")
+        return False
+    want_dt = getattr(torch, case["dtype"])
+    if x.dtype != want_dt or u.dtype != want_dt or cost.dtype != want_dt:
+        ctx.fail(case, f"dtype: {tag}: returned dtypes {x.dtype}, {u.dtype}, {cost.dtype} for {want_dt} inputs")
+        return False
     if tuple(x.shape) != (Bn, T + 1, ns) or tuple(u.shape) != (Bn, T, nc) or tuple(cost.shape) != (Bn,):
         ctx.fail(case, f"shape: {tag}: returned shapes x{tuple(x.shape)} u{tuple(u.shape)} cost{tuple(cost.shape)}")
         return False
@@ -294,6 +301,38 @@ def sys_tensors(system):
     return [(n, b) for n, b in system.named_buffers() if n != "_t"]
 
 
+def safe_clock(system):
+    try:
+        return int(system.systime)
+    except Exception:
+        return "?"
+
+
+def lqr_attrs(lq):
+    """public attributes of the LQR object that a call must not change"""
+    return (lq.T, tuple(lq.n_batch), tuple(lq.Q.shape), tuple(lq.p.shape), lq.Q.dtype, type(lq.system).__name__)
+
+
+class Kept:
+    """tensors returned by earlier calls: a later call must not modify them (results aliasing internal buffers)"""
+
+    def __init__(self):
+        self.items = []
+
+    def add(self, label, *tensors):
+        self.items.append((label, [(t, t.detach().clone()) for t in tensors if isinstance(t, torch.Tensor)]))
+
+    def modified(self):
+        return [lab for lab, ts in self.items if any(t.shape != c.shape or not torch.equal(t.detach(), c) for t, c in ts)]
+
+
+def solve_opts(op):
+    o = {"dt": None, "xview": "contig", "uview": "contig", "prev_obj": False}
+    if len(op) > 2 and isinstance(op[2], dict):
+        o.update(op[2])
+    return o
+
+
 def run_lqr_case(ctx: Ctx, case, lines, metas):
     """runs the whole history of `case` on the real code, applies the oracles, queues model lines"""
     prob = U.build_problem(case)
@@ -304,7 +343,8 @@ def run_lqr_case(ctx: Ctx, case, lines, metas):
     system = U.make_system(case, prob)
     lq = U.make_lqr(case, prob, system)
     x0 = torch.tensor(prob["x0"], dtype=dt_t)
-    prev_u, first, nsolve = None, None, 0
+    prev_u, prev_obj, first, nsolve, modelled = None, None, None, 0, False
+    kept = Kept()
     ok = True
     L = prob["L"]
     for op in case["ops"]:
@@ -313,6 +353,10 @@ def run_lqr_case(ctx: Ctx, case, lines, metas):
             if kind == "clock":
                 if op[2] == "set":
                     system.systime = op[1]
+                elif op[2] == "tensor":      # the caller keeps the int64 tensor it assigned and changes it afterwards
+                    held = torch.tensor(op[1], dtype=torch.int64)
+                    system.systime = held
+                    held.add_(3)
                 else:
                     system.reset(op[1])
                 ctx.count("lqr.op.clock")
@@ -326,34 +370,80 @@ def run_lqr_case(ctx: Ctx, case, lines, metas):
             elif kind == "newlqr":
                 lq = U.make_lqr(case, prob, system)
                 ctx.count("lqr.op.newlqr")
+            elif kind == "mutate":
+                # STALE READS: the tensors the caller built the system from are updated in place; later solves must
+                # describe the current system
+                bufs = dict(system.named_buffers())
+                bufs["_A"].mul_(op[1])
+                bufs["_B"].mul_(op[2])
+                if bufs.get("_c1") is not None:
+                    bufs["_c1"].add_(op[3])
+                prob = U.refresh_from_system(case, prob, system)
+                refs = [U.make_ref(prob, b, T) for b in range(Bn)]
+                first = None
+                ctx.count("lqr.op.mutate-system")
+            elif kind == "mutx0":
+                # the caller's x_init tensor is updated in place and passed again
+                x0.mul_(op[1]).add_(op[2])
+                prob = dict(prob, x0=x0.detach().double().numpy().copy())
+                refs = [U.make_ref(prob, b, T) for b in range(Bn)]
+                first = None
+                ctx.count("lqr.op.mutate-x0")
             elif kind == "other":
-                # another problem (other horizon, costs, start) solved on the same system object
-                c2 = dict(case, T=op[1], data_seed=op[2], qshape="full")
+                # another problem (other horizon, costs, start, for shared matrices also another batch size) solved on
+                # the same system object
+                B2 = op[3] if (len(op) > 3 and case["sys"] == "lti_shared") else Bn
+                c2 = dict(case, T=op[1], data_seed=op[2], qshape="full", B=B2, mixed=False)
                 p2 = U.build_problem(c2)
-                p2["A"], p2["B"], p2["c"], p2["L"] = prob["A"], prob["B"], prob["c"], prob["L"]
+                if B2 == Bn:
+                    p2["A"], p2["B"], p2["c"], p2["L"] = prob["A"], prob["B"], prob["c"], prob["L"]
+                else:
+                    for key in ("A", "B", "c"):
+                        p2[key] = np.repeat(prob[key][:1], B2, axis=0)
+                    p2["L"] = prob["L"]
                 lq2 = U.make_lqr(c2, p2, system)
                 xo, uo, co = lq2(torch.tensor(p2["x0"], dtype=dt_t), case["dt"])
-                refs2 = [U.make_ref(p2, b, op[1]) for b in range(Bn)]
-                ok &= check_solution(ctx, dict(case, focus=op), p2, refs2, xo, uo, co, f"other problem (T={op[1]}) on the same system", T=op[1])
+                refs2 = [U.make_ref(p2, b, op[1]) for b in range(B2)]
+                ok &= check_solution(ctx, dict(case, focus=op), p2, refs2, xo, uo, co,
+                                     f"other problem (T={op[1]}, batch {B2}) on the same system", T=op[1], Bn=B2)
                 ctx.count("lqr.op.other")
             elif kind == "otherx0":
                 rs = np.random.RandomState(op[1])
-                xalt = torch.tensor(rs.standard_normal((Bn, ns)), dtype=dt_t)
+                xalt = torch.tensor(rs.standard_normal((Bn, ns)) * (op[2] if len(op) > 2 else 1.0), dtype=dt_t)
                 p3 = dict(prob, x0=xalt.double().numpy())
+                att = lqr_attrs(lq)
                 xo, uo, co = lq(xalt, case["dt"])
                 refs3 = [U.make_ref(p3, b, T) for b in range(Bn)]
                 ok &= check_solution(ctx, dict(case, focus=op), p3, refs3, xo, uo, co, "same LQR object, other x_init")
+                if lqr_attrs(lq) != att:
+                    ctx.fail(dict(case, focus=op), f"attributes: a call changed the LQR object's public attributes {att} -> {lqr_attrs(lq)}")
+                    ok = False
+                kept.add("other x_init", xo, uo, co)
                 ctx.count("lqr.op.otherx0")
             elif kind == "solve":
                 nsolve += 1
+                o = solve_opts(op)
+                dt_call = case["dt"] if o["dt"] is None else o["dt"]
                 un = U.nominal(case, prob, op[1], prev_u)
-                ut = None if un is None else torch.tensor(un, dtype=dt_t)
-                snap = Snap([("x_init", x0), ("u_traj", ut), ("Q", lq.Q), ("p", lq.p)] + sys_tensors(system))
-                tag = f"solve #{nsolve} (u_traj={op[1] if isinstance(op[1], str) else 'rand*%g' % op[1][1]}, clock at entry {int(system.systime)})"
-                x, u, cost = lq(x0, case["dt"], ut) if (ut is not None or nsolve % 2) else lq(x0, case["dt"])
+                if un is None:
+                    ut, ubase = None, None
+                elif op[1] == "prev" and o["prev_obj"] and prev_obj is not None:
+                    ut, ubase = prev_obj, prev_obj           # the tensor returned by the previous call itself
+                else:
+                    ut, ubase = U.as_view(torch.tensor(un, dtype=dt_t), o["uview"])
+                xv, xbase = U.as_view(x0, o["xview"])
+                snap = Snap([("x_init", xv), ("x_init buffer", xbase), ("u_traj", ut), ("u_traj buffer", ubase), ("Q", lq.Q), ("p", lq.p)]
+                            + sys_tensors(system))
+                att = lqr_attrs(lq)
+                tag = (f"solve #{nsolve} (u_traj={op[1] if isinstance(op[1], str) else 'rand*%g' % op[1][1]}, clock at entry "
+                       f"{safe_clock(system)}, dt={dt_call}, x_init {o['xview']}, u_traj {o['uview']})")
+                x, u, cost = lq(xv, dt_call, ut) if (ut is not None or nsolve % 2) else lq(xv, dt_call)
                 ch = snap.changed()
                 if ch:
                     ctx.fail(case, f"purity: {tag}: LQR modified {ch}")
+                    ok = False
+                if lqr_attrs(lq) != att:
+                    ctx.fail(case, f"attributes: {tag}: the call changed the LQR object's public attributes {att} -> {lqr_attrs(lq)}")
                     ok = False
                 good = check_solution(ctx, case, prob, refs, x, u, cost, tag, ubar=un)
                 ok &= good
@@ -362,25 +452,55 @@ def run_lqr_case(ctx: Ctx, case, lines, metas):
                 tl = [refs[b].tols(None if un is None else un[b], eps) for b in range(Bn)]
                 if first is None:
                     first = (x.detach().double().numpy(), u.detach().double().numpy(), cost.detach().double().numpy(), tl)
-                    # gains of the same nominal for the model comparison (fresh LQR object: no effect on the history)
-                    lqg = U.make_lqr(case, prob, system)
-                    clk = int(system.systime)
-                    K, k = lqg.lqr_backward(x0, case["dt"], None if ut is None else ut.clone())
-                    system.reset(clk)
-                    for b in range(Bn):
-                        lines.append(U.lqr_line(case, prob, b, un, dt=1 if not isinstance(case["dt"], int) else case["dt"]))
-                        metas.append((case, b, first[0][b], first[1][b], float(first[2][b]), K[b].detach().double().numpy(),
-                                      k[b].detach().double().numpy(), refs[b], tl[b]))
+                    if not modelled:
+                        modelled = True
+                        # gains of the same nominal for the model comparison (fresh LQR object: no effect on the history)
+                        lqg = U.make_lqr(case, prob, system)
+                        clk = safe_clock(system)
+                        K, k = lqg.lqr_backward(x0, case["dt"], None if un is None else torch.tensor(un, dtype=dt_t))
+                        if isinstance(clk, int):
+                            system.reset(clk)
+                        if tuple(K.shape) != (Bn, T, nc, ns) or tuple(k.shape) != (Bn, T, nc) or not (
+                                bool(torch.isfinite(K).all()) and bool(torch.isfinite(k).all())):
+                            ctx.fail(case, f"shape: lqr_backward returned K{tuple(K.shape)} k{tuple(k.shape)} (or non-finite gains)")
+                            ok = False
+                        else:
+                            for b in range(Bn):
+                                lines.append(U.lqr_line(case, prob, b, un, dt=1 if not isinstance(case["dt"], int) else case["dt"]))
+                                metas.append((case, b, first[0][b], first[1][b], float(first[2][b]), K[b].detach().double().numpy(),
+                                              k[b].detach().double().numpy(), refs[b], tl[b],
+                                              None if un is None else un[b]))
+                        # MIXED-REGIME BATCH: every item against the same problem solved alone
+                        if case.get("mixed") and Bn > 1 and good:
+                            for b in range(Bn):
+                                cb, pb = U.item_problem(case, prob, b)
+                                sb = U.make_system(cb, pb)
+                                xb_, ub_, cb_ = U.make_lqr(cb, pb, sb)(x0[b:b + 1].clone(), dt_call, None if un is None else torch.tensor(un[b:b + 1], dtype=dt_t))
+                                du = np.abs(ub_[0].detach().double().numpy() - first[1][b])
+                                dx = np.abs(xb_[0].detach().double().numpy() - first[0][b])
+                                if (du > 2 * C_TOL * eps * tl[b][0] + 1e-300).any() or (dx > 2 * C_TOL * eps * tl[b][1] + 1e-300).any():
+                                    ctx.fail(case, f"batch: {tag}: item {b} of the batch differs from the same problem solved alone "
+                                                   f"by {du.max():.3e} in u, {dx.max():.3e} in x")
+                                    ok = False
+                            ctx.count("lqr.mixed-batch")
                 else:
                     # nominal / history independence, stated directly between two solves
                     for b in range(Bn):
-                        r = refs[b]
                         du = np.abs(u[b].detach().double().numpy() - first[1][b])
                         if (du > C_TOL * eps * (tl[b][0] + first[3][b][0]) + 1e-300).any():
                             ctx.fail(case, f"history: {tag} differs from the first solve on the same system by {du.max():.3e} in u (item {b})")
                             ok = False
                 prev_u = u.detach().double().numpy()
+                prev_obj = u
+                kept.add(f"solve #{nsolve}", x, u, cost)
                 ctx.count(f"lqr.solve.nominal.{op[1] if isinstance(op[1], str) else 'rand'}")
+                ctx.count(f"lqr.solve.xview.{o['xview']}")
+                ctx.count(f"lqr.solve.uview.{o['uview']}")
+            mod = kept.modified()
+            if mod:
+                ctx.fail(dict(case, focus=op), f"aliasing: tensors returned by {mod} were modified by a later operation ({kind})")
+                ok = False
+                kept = Kept()
         except common.InfraError:
             raise
         except Exception as e:
@@ -390,7 +510,7 @@ def run_lqr_case(ctx: Ctx, case, lines, metas):
 
 
 def compare_lqr_model(ctx: Ctx, reps, metas):
-    for rep, (case, b, xi, ui, ci, Ki, ki, r, (tol_u, tol_x, _sg)) in zip(reps, metas):
+    for rep, (case, b, xi, ui, ci, Ki, ki, r, (tol_u, tol_x, _sg), ub) in zip(reps, metas):
         ns, nc, T = case["ns"], case["nc"], case["T"]
         eps = eps_of(case)
         xm, um, cm, Km, km = U.parse_lqr_reply(rep, ns, nc, T)
@@ -406,14 +526,15 @@ def compare_lqr_model(ctx: Ctx, reps, metas):
         if eu.max() > 1 or ex.max() > 1 or ec > 1:
             ctx.disagree("lqr", case, f"item {b}: implementation vs model: u {np.abs(ui - um).max():.3e} (ratio {eu.max():.2f}), "
                                       f"x {np.abs(xi - xm).max():.3e} (ratio {ex.max():.2f}), cost {abs(ci - cm):.3e} (ratio {ec:.2f})")
-        # gains: K is a property of the problem, k of problem + nominal; scale by the size of the gains and cond
-        kap = C_TOL * eps * max(r.condH, 1.0) * 16
-        sK = np.abs(Km).max() + 1e-300
-        sk = np.abs(km).max() + np.abs(um).max() + 1e-300
-        eK, ek = np.abs(Ki - Km).max() / sK, np.abs(ki - km).max() / sk
-        stat("model.K", eK / kap); stat("model.k", ek / kap)
-        if eK > kap or ek > kap:
-            ctx.disagree("gains", case, f"item {b}: K differs by {eK:.3e}, k by {ek:.3e} relative (allowed {kap:.3e})")
+        # gains, per time step: allowed = C*eps*(sensitivity of (K_t,k_t) to relative data perturbations + their size)
+        sK, sk = U.gains_tolerance(r, ub, case["data_seed"] + b)
+        eK = np.abs(Ki - Km).reshape(T, -1).max(axis=1) / (C_TOL * eps * sK + 1e-300)
+        ek = np.abs(ki - km).reshape(T, -1).max(axis=1) / (C_TOL * eps * sk + C_TOL * eps * eps * (np.abs(um).max() + np.abs(r.x).max()) + 1e-300)
+        stat("model.K", eK.max()); stat("model.k", ek.max())
+        if eK.max() > 1 or ek.max() > 1:
+            t = int(np.argmax(np.maximum(eK, ek)))
+            ctx.disagree("gains", case, f"item {b}: K[{t}] differs by {np.abs(Ki[t] - Km[t]).max():.3e} (ratio {eK[t]:.2f}), "
+                                        f"k[{t}] by {np.abs(ki[t] - km[t]).max():.3e} (ratio {ek[t]:.2f})")
 
 
 # ----------------------------------------------------------------------------- MPC streams
